@@ -135,6 +135,32 @@ def invariant(ctx, im, where):
             "pixels are not squares of the configured size anchored at the covered range",
             {"pixel": [int(i), int(j)], "mass": float(img[i, j])}, float(want[i, j]))
         ok = False
+    # the same statement for the other built-in kernels (kernel and kernel_params are public attributes of the
+    # imager): a uniform box of half a pixel centred in a pixel lies inside that pixel, so the image is again
+    # exactly the indicator of the probed pixels; a correlated Gaussian must at least produce the reported shape
+    from persim import images_kernels
+
+    saved = (im.kernel, im.kernel_params)
+    try:
+        im.kernel, im.kernel_params = images_kernels.uniform, {"width": px / 2.0, "height": px / 2.0}
+        img = np.asarray(ctx.call(im.transform, pts, skew=False))
+        ctx.valid()
+        if img.shape != (n0, n1):
+            bad("image-shape", "transform() output shape differs from the reported resolution (uniform kernel)", list(img.shape), [n0, n1])
+            ok = False
+        elif np.abs(img - want).max() > 1e-6:
+            i, j = np.unravel_index(np.argmax(np.abs(img - want)), img.shape)
+            bad("pixel-probe", "a uniform box of half a pixel centred in a pixel does not land (only) in that pixel",
+                {"pixel": [int(i), int(j)], "mass": float(img[i, j])}, float(want[i, j]))
+            ok = False
+        im.kernel, im.kernel_params = images_kernels.gaussian, {"sigma": np.array([[px * px, 0.5 * px * px], [0.5 * px * px, 2 * px * px]])}
+        img = np.asarray(ctx.call(im.transform, pts[:2], skew=False))
+        ctx.valid()
+        if img.shape != (n0, n1):
+            bad("image-shape", "transform() output shape differs from the reported resolution (correlated Gaussian kernel)", list(img.shape), [n0, n1])
+            ok = False
+    finally:
+        im.kernel, im.kernel_params = saved
     return ok
 
 
